@@ -213,6 +213,42 @@ func genKeys(r *core.Rand, kinds []kind, n int, p profile) []tuple {
 	return keys
 }
 
+// genAltKeys draws one value of the non-primary unique key k per node: distinct, never zero, about
+// half of them the first primary-key part of ANOTHER node (so that a lookup by the wrong key finds
+// somebody else's rows instead of nothing).
+func genAltKeys(r *core.Rand, k kind, nodeKeys []tuple, p profile) []tuple {
+	out := make([]tuple, len(nodeKeys))
+	seen := map[string]bool{}
+	for i := range nodeKeys {
+		for tries := 0; out[i] == nil; tries++ {
+			var t tuple
+			switch {
+			case tries >= 40:
+				// the pools are exhausted (cannot happen with at most 7 nodes): a value outside them
+				if k == kInt {
+					t = tuple{int64(1000 + i)}
+				} else {
+					t = tuple{fmt.Sprintf("k%d", i)}
+				}
+			case len(nodeKeys) > 1 && r.Bool():
+				j := r.Intn(len(nodeKeys))
+				if j == i {
+					continue
+				}
+				t = tuple{nodeKeys[j][0]}
+			default:
+				t = tuple{genPart(r, k, p)}
+			}
+			if allZero(t) || seen[t.ident()] {
+				continue
+			}
+			seen[t.ident()] = true
+			out[i] = t
+		}
+	}
+	return out
+}
+
 // genFK generates a foreign-key tuple aimed at targets; nullable[i] says whether part i may be NULL.
 func genFK(r *core.Rand, kinds []kind, targets []tuple, nullable []bool, p profile) tuple {
 	anyNullable, allNullable := false, true
@@ -293,6 +329,8 @@ func genDataset(r *core.Rand, w *world, p profile) *dataset {
 	bossCols := w.node.rels[0].ownerCols // Boss: boss_* on node
 	nodeKeys := genKeys(r, w.kinds, r.Range(2, 6), p)
 	tagKeys := genKeys(r, w.kinds, r.Range(1, 4), p)
+	altKinds := w.kinds[:1]
+	altKeys := genAltKeys(r, altKinds[0], nodeKeys, p)
 	u := int64(0)
 	next := func() int64 { u++; return u }
 	set := func(rw *row, cols []string, t tuple) {
@@ -301,11 +339,12 @@ func genDataset(r *core.Rand, w *world, p profile) *dataset {
 		}
 	}
 	// nodes
-	for _, k := range nodeKeys {
+	for i, k := range nodeKeys {
 		rw := &row{u: next(), vals: map[string]val{}, deleted: r.Chance(1, 6)}
 		rw.vals["u"] = rw.u
 		payload(r, rw)
 		set(rw, keyCols, k)
+		rw.vals["k"] = altKeys[i][0]
 		set(rw, bossCols, genFK(r, w.kinds, nodeKeys, nullableOf(w.node, bossCols), p))
 		ds.rows[w.node] = append(ds.rows[w.node], rw)
 	}
@@ -316,6 +355,7 @@ func genDataset(r *core.Rand, w *world, p profile) *dataset {
 		rw.vals["u"] = rw.u
 		payload(r, rw)
 		set(rw, ownCols, genFK(r, w.kinds, nodeKeys, nullableOf(w.item, ownCols), p))
+		rw.vals["alt_k"] = genFK(r, altKinds, altKeys, nullableOf(w.item, []string{"alt_k"}), p)[0]
 		ds.rows[w.item] = append(ds.rows[w.item], rw)
 	}
 	// cards: at most one live card per key tuple (which candidate a has-one picks among several is
@@ -382,20 +422,23 @@ func genDataset(r *core.Rand, w *world, p profile) *dataset {
 	}
 	// polymorphic children
 	if w.pic != nil {
-		logoOf := map[string]bool{}
-		for i, n := 0, r.Range(0, 7); i < n; i++ {
+		// owner_id holds a primary key or an alternative key k of a node (both of the same column type; a
+		// value is often both: the primary key of one node and the k of another), whatever the type value
+		owners := append(append([]tuple{}, nodeKeys...), altKeys...)
+		oneOf := map[string]bool{}
+		for i, n := 0, r.Range(0, 10); i < n; i++ {
 			rw := &row{u: next(), vals: map[string]val{}}
 			rw.vals["u"] = rw.u
 			payload(r, rw)
-			rw.vals["owner_id"] = genFK(r, w.kinds, nodeKeys, []bool{false}, p)[0]
-			ot := core.Pick(r, []string{"node", "node", "node", "logo", "logo", "tag", "nodes", "Node", "Logo", ""})
-			if ot == "logo" {
-				// polymorphic has-one: at most one candidate per owner key (pictures are not soft-deleted)
-				id := renderVal(rw.vals["owner_id"])
-				if logoOf[id] {
-					ot = "node"
+			rw.vals["owner_id"] = genFK(r, w.kinds, owners, []bool{false}, p)[0]
+			ot := core.Pick(r, []string{"node", "node", "node", "logo", "logo", "shot", "shot", "shot", "seal", "seal", "tag", "nodes", "Node", "Logo", ""})
+			if ot == "logo" || ot == "seal" {
+				// polymorphic has-one: at most one candidate per (owner key, type value) (pictures are not soft-deleted)
+				id := ot + renderVal(rw.vals["owner_id"])
+				if oneOf[id] {
+					ot = map[string]string{"logo": "node", "seal": "shot"}[ot]
 				}
-				logoOf[id] = true
+				oneOf[id] = true
 			}
 			rw.vals["owner_type"] = ot
 			ds.rows[w.pic] = append(ds.rows[w.pic], rw)
